@@ -7,7 +7,7 @@
                                        it only if it compiles and the 44 unit tests still pass,
                                        then run the quick checks (a fraction F of their runs,
                                        default 1/8) until one reports a violation
-  mutate.py rerun --in FILE --out FILE  full quick checks for the survivors of an earlier pass
+  mutate.py rerun --in FILE --out FILE [--frac F] [--props "C02 C03 .."]  the survivors of an earlier pass against the current checks
 
 Every mutant is one token-level change on one source line (relational / arithmetic / logical
 operator, integer constant +-1, min<->max, floor<->ceil, dropped negation, deleted statement).
@@ -280,10 +280,22 @@ def main():
         run(ms, out, int(arg("--slots", "4")), float(arg("--frac", "0.125")), ORDER)
         return
     if cmd == "rerun":
-        allm = {m["id"]: m for m in candidates()}
+        # survivors of an earlier pass against the current checks; matched by text, the nearest
+        # line winning (the repository may have moved on since)
+        cands = candidates()
         sv = [json.loads(l) for l in open(arg("--in"))]
-        ms = [allm[r["id"]] for r in sv if r["status"] == "survived" and r["id"] in allm and allm[r["id"]]["after"] == r["after"]]
-        run(ms, arg("--out"), int(arg("--slots", "2")), 1.0, ORDER)
+        ms = []
+        for r in sv:
+            if r["status"] != "survived":
+                continue
+            same = [m for m in cands if m["file"] == r["file"] and m["before"] == r["before"] and m["after"] == r["after"]]
+            if same:
+                ms.append(min(same, key=lambda m: abs(m["line"] - r["line"])))
+        only = arg("--only")
+        if only:
+            ms = [m for m in ms if re.search(only, "%s:%d:%s" % (m["file"], m["line"], m["kind"]))]
+        props = arg("--props", " ".join(ORDER)).split()
+        run(ms, arg("--out"), int(arg("--slots", "4")), float(arg("--frac", "0.25")), props)
         return
     if cmd == "report":
         report(arg("--in"), arg("--triage"))
